@@ -99,6 +99,9 @@ _bk_gen, _bk_chk = build.backend_dimension(0.12)
 gen_case = _bk_gen(gen_case)
 check_case = _bk_chk(check_case)
 
+# no clause depends on the coordinate unit: 8 % of the planar cases are expressed in a small unit (everything x 2^-7..2^-17)
+gen_case = mcase.scale_dimension(0.08)(gen_case)
+
 TECHNIQUE = "runtime monitoring: invariant-at-a-hook, the whole live lattice is walked after every public call of generated operation histories"
 LEVEL_TEXT = ("{Q} (quick) / {T} (thorough) generated operation histories on real matchers; after each of the ~4 operations per history every "
               "lattice entry is checked for filing, predecessor identity and layer, monotone probability, length bookkeeping, probability range and "
